@@ -1,4 +1,4 @@
-CLAIM = False
+CLAIM = True
 
 STUB = {'get_possible_cpus_array_len': 'my_ncpus'}
 
@@ -7,7 +7,7 @@ def seq(name, scen, mm=0, init=1, mn=1, mx=4, flags=0, lops=3, unwind=6, desc=''
     return dict(name=name, src='c08_lfht_seq.c',
                 cflags=['-DSCEN=%d' % scen, '-DMM=%d' % mm, '-DINIT=%d' % init, '-DMINB=%d' % mn, '-DMAXB=%d' % mx, '-DFLAGS=%d' % flags,
                         '-DLOPS=%d' % lops] + list(extra_cf),
-                nslots=1, pre=['seq'], plain=[('seq', 0)], stub_map=STUB, extra_srcs=['src/rculfhash-mm-%s.c' % ['order', 'chunk'][mm]], unwind=unwind, unwinding_assertions=True, timeout=timeout, mem_gb=14, intaddr_ok=True, unwind_fn={'^F0_(a_|seq|check_|setup|one_op|uidx|model_)': 10},
+                nslots=1, pre=['seq'], plain=[('seq', 0)], stub_map=STUB, extra_srcs=['src/rculfhash-mm-%s.c' % ['order', 'chunk'][mm]], unwind=unwind, unwinding_assertions=True, timeout=timeout, mem_gb=14 if lops <= 3 else 24, intaddr_ok=True, unwind_fn={'^F0_(a_|seq|check_|setup|one_op|uidx|model_)': 10},
                 witnesses=['end of harness reachable'] + list(wit or []), desc=desc,
                 bounds=dict(ops=lops, nodes=3, hashes='2 fully symbolic 64-bit hash values', init=init, min=mn, max=mx, mm=['order', 'chunk'][mm]))
 
@@ -30,7 +30,7 @@ def obligations(tier):
     obs = []
     import itertools
     if q:
-        seqs = [(0, 0, 1), (1, 0, 3), (0, 2, 3)]     # resize is C09's (quick); thorough enumerates all 125 kinds
+        seqs = [(0, 0, 1), (1, 0, 3), (0, 3, 1)]     # resize is C09's (quick); thorough enumerates all 125 kinds
     else:
         seqs = list(itertools.product(range(5), repeat=3))
     for mm in (0, 1):
